@@ -13,6 +13,8 @@ ITEMS = {
     "fn_async": "async fn f<D>(deps: &D, a: u8, b: u8) -> u8 { a - b }",
     "mod": "pub mod inner { pub fn f<D>(deps: &D, a: u8) -> u8 { a } pub async fn g<D>(deps: &D, a: u8) -> u8 { a } }",
     "trait": "pub trait Tr { fn f(&self, a: u8) -> u8; async fn g(&self, a: u8) -> u8; }",
+    "impl": "pub trait TrImpl<T>: 'static { fn f(&self, __impl: &Impl<T>, a: u8) -> u8; } pub struct X; IMPL_ATTR impl TrImpl for X { fn f<D>(deps: &D, a: u8) -> u8 { a } }",
+    "impl_static": "pub trait TrImpl<T>: 'static { fn f(__impl: &Impl<T>, a: u8) -> u8; } pub struct X; IMPL_ATTR impl TrImpl for X { fn f<D>(deps: &D, a: u8) -> u8 { a } }",
 }
 
 
@@ -56,6 +58,12 @@ def pairs(feature, maxsub):
             for sub in [(), ("mock_api = TMock",), ("mock_api = TMock", "export"), ("no_deps", "mock_api = TMock")]:
                 out.append(("[feature] entrait(%s) == entrait(%s, unimock)" % (", ".join(sub), ", ".join(sub)), tgt,
                             attr("entrait", name, sub), attr("entrait", name, list(sub) + ["unimock"])))
+    # `debug` (prints, does not change the tokens) and the impl-block spellings
+    out.append(("`debug = false` == omitted", "fn", attr("entrait", "T", ["debug = false"]), attr("entrait", "T", [])))
+    out.append(("`debug = false` == omitted", "mod", attr("entrait", "pub T", ["debug = false"]), attr("entrait", "pub T", [])))
+    out.append(("`debug = false` == omitted", "trait", attr("entrait", None, ["debug = false"]), attr("entrait", None, [])))
+    out.append(("impl block: `debug = false` == omitted", "impl_static", "#[entrait(debug = false)]", "#[entrait]"))
+    out.append(("impl block: `ref` == `dyn`", "impl", "#[entrait(ref)]", "#[entrait(dyn)]"))
     topts = ["mock_api = TMock", "mockall", "?Send", "delegate_by = ref"] + (["unimock"] if feature else [])
     for o in ["mockall"] + (["unimock"] if feature else []):
         out.append(("bare `%s` == `%s = true`" % (o, o), "trait", attr("entrait", None, [o]), attr("entrait", None, [o + " = true"])))
@@ -92,6 +100,10 @@ def gen_pairs_crate(dirname, ps):
         item = ITEMS[tgt]
         if "no_deps" in a:
             item = item.replace("<D>(deps: &D, ", "(").replace("<D>(deps: &D)", "()")
+        if "IMPL_ATTR" in item:
+            lines.append("pub mod pa%d { use entrait::*; %s }" % (i, item.replace("IMPL_ATTR", a)))
+            lines.append("pub mod pb%d { use entrait::*; %s }" % (i, item.replace("IMPL_ATTR", b)))
+            continue
         lines.append("pub mod pa%d { use entrait::*; %s %s }" % (i, a, item))
         lines.append("pub mod pb%d { use entrait::*; %s %s }" % (i, b, item))
     with open(os.path.join(dirname, "src", "lib.rs"), "w") as f:
